@@ -218,6 +218,55 @@ def rule_X3(F, R):
         ext = [e for e in p.events if e["callee"].endswith("extend_from_slice")]
         tb = [e for e in p.events if e["callee"] == _tb]
         vid = ("F", ("P", "payload"), None, "version_id")
+        helper_nonce = None
+        if not fills and len(nonce) == 1:
+            # the fresh nonce may come from a helper of the module: its only successful path fills a zeroed buffer from
+            # self.rng once and returns that buffer
+            for e in p.events:
+                hb = F.bodies.get(e["callee"])
+                if hb is None or not e["callee"].startswith(ENC) or e["callee"] == b["path"]:
+                    continue
+                try:
+                    hps = [q for q in SymExec(hb, cfg_of(hb), max_paths=500).run() if q.end[0] == "return" and q.ret[0] == "A" and q.ret[2] == "Ok"]
+                except Exception:
+                    continue
+                if len(hps) != 1:
+                    continue
+                hf = [x for x in hps[0].events if x["callee"].endswith("SecureRandom::fill")]
+                if len(hf) != 1 or not _has(hf[0]["args"][0], lambda v: v == ("F", ("P", "self"), None, "rng")):
+                    continue
+                rv = hps[0].ret[3][0][1]
+                if rv[0] == "M" and rv[1] == hf[0]["id"] and rv[2][0] == "Rep" and _has(e["args"], lambda v: v == ("P", "self")):
+                    helper_nonce = e
+        if helper_nonce is not None and len(seal) == 1 and len(aad) == 1:
+            nb = nonce[0]["args"][0]
+            if not _has(nb, lambda v: v[0] == "C" and v[1] == helper_nonce["id"]):
+                R.violation("X3", b["path"], "nonce-not-fresh", "the nonce given to the AEAD is %s, not the buffer filled by the system RNG in %s" % (show(nb), helper_nonce["callee"]), w)
+                continue
+            if not any(a_ == vid for a_ in aad[0]["args"]):
+                R.violation("X3", b["path"], "aad-binding", "the AAD is not built from the version id attached to the payload", w)
+                continue
+            sa = seal[0]["args"]
+            if not (_has(sa[1], lambda v: v[0] == "C" and v[1] == nonce[0]["id"]) and _has(sa[2], lambda v: v[0] == "C" and v[1] == aad[0]["id"]) and _has(sa[3], lambda v: v == ("F", ("P", "payload"), None, "payload"))):
+                R.violation("X3", b["path"], "aead-args", "seal_in_place is not called with (fresh nonce, make_aad(..), the payload)", w)
+                continue
+            if not any(_has(e["args"][1], lambda v: v[0] == "C" and v[1] == seal[0]["id"]) for e in ext):
+                R.violation("X3", b["path"], "tag-not-appended", "the authentication tag is not appended to the ciphertext", w)
+                continue
+            if len(tb) != 1:
+                R.violation("X3", b["path"], "envelope", "the sealed value is not produced by the envelope encoder", w)
+                continue
+            env = tb[0]["args"][0]
+            f = dict(env[3]) if env[0] == "A" else {}
+            if not _has(f.get("nonce", ("?",)), lambda v: v[0] == "C" and v[1] == helper_nonce["id"]) or not _has(f.get("payload", ("?",)), lambda v: v[0] == "M"):
+                R.violation("X3", b["path"], "envelope-fields", "the envelope does not carry the nonce that was used and the sealed payload", w)
+                continue
+            r = dict(p.ret[3][0][1][3])
+            if r.get("version_id") != vid or not _has(r.get("payload"), lambda v: v[0] == "C" and v[1] == tb[0]["id"]):
+                R.violation("X3", b["path"], "result", "seal does not return Sealed{same version id, envelope bytes}", w)
+                continue
+            R.ok("X3", "seal: helper fills the nonce -> make_aad(version_id) -> seal_in_place -> append tag -> envelope", w)
+            continue
         if len(fills) != 1 or len(nonce) != 1 or len(seal) != 1 or len(aad) != 1:
             R.violation("X3", b["path"], "shape", "seal does not consist of one fill, one nonce, one make_aad and one seal_in_place", w)
             continue
@@ -228,7 +277,7 @@ def rule_X3(F, R):
         if not _has(fills[0]["args"][0], lambda v: v == ("F", ("P", "self"), None, "rng")):
             R.violation("X3", b["path"], "rng", "the nonce is not filled from the Cryptor's SystemRandom", w)
             continue
-        if aad[0]["args"][1] != vid:
+        if not any(a_ == vid for a_ in aad[0]["args"]):
             R.violation("X3", b["path"], "aad-binding", "the AAD is built from %s, not from the version id attached to the payload" % show(aad[0]["args"][1]), w)
             continue
         sa = seal[0]["args"]
@@ -314,8 +363,8 @@ def rule_X4(F, R):
             if not opened_ok:
                 R.violation("X4", b["path"], "open-failure-ignored", "unseal can succeed although open_in_place did not return Ok (tampered data would be returned)", w)
                 continue
-            if aad[0]["args"][1] != vid:
-                R.violation("X4", b["path"], "aad-binding", "unseal authenticates against %s, not the version id the caller expects" % show(aad[0]["args"][1]), w)
+            if not any(a_ == vid for a_ in aad[0]["args"]):
+                R.violation("X4", b["path"], "aad-binding", "unseal authenticates against %s, not the version id the caller expects" % show(aad[0]["args"][-1]), w)
                 continue
             oa = op[0]["args"]
             env = ("C", fb[0]["id"])
